@@ -275,6 +275,47 @@ def reload_file(fl, f):
     return F.read(buf)
 
 
+EQ_SELF = ("self", "rev", "revkeys")
+
+
+def eq_other(fl, cont, arg, mk_lit):
+    """The other operand of an equality call: a literal, or a mapping derived from an independent
+    copy of the container itself (Containers.tla: Derived) - "rev": the same key -> value pairs
+    inserted in the opposite order, "revkeys": the keys in the opposite order over the values in
+    their old positions."""
+    if arg not in EQ_SELF:
+        return mk_lit(fl, arg)
+    cp = copy.deepcopy(cont)
+    if arg == "self":
+        return cp
+    keys = list(cp)
+    vals = [cp[k] for k in keys]
+    if arg == "rev":
+        return type(cont)(dict(zip(reversed(keys), reversed(vals))))
+    return type(cont)(dict(zip(reversed(keys), vals)))
+
+
+def observe_ser(fl, f):
+    """Observation after every call (MCContainers: variable `ser`, Trace: field `ser`): an
+    independent copy of the container is written and read back.  Caches inside the real objects
+    that the history left behind (row counts, parsed / serialised elements) are copied with it, so
+    they show here even if the next call of the path does not happen to serialise."""
+    try:
+        g = reload_file(fl, copy.deepcopy(f))
+    except Exception:  # noqa: BLE001  the property does not name the class of the refusal
+        return {"oc": "Rejected", "abs": []}
+    try:
+        return {"oc": "ok", "abs": proj_file(g)}
+    except Exception as e:  # noqa: BLE001
+        return {"oc": "ok", "abs": [{"k": "<projection failed: %s>" % type(e).__name__, "v": []}]}
+
+
+def ser_agrees(obs, ser_ok, ab):
+    """obs against the specification's value: serialisable (TLC: IdealSerializable) -> written, read
+    back with the content `ab`; not serialisable -> refused."""
+    return obs == {"oc": "ok", "abs": ab} if ser_ok else obs["oc"] == "Rejected"
+
+
 def apply_map(fl, holder, pb, pc, op, a):
     """One mapping call on holder['f'].  Returns (oc, out)."""
     f = holder["f"]
@@ -295,7 +336,7 @@ def apply_map(fl, holder, pb, pc, op, a):
         elif op == "FContains":
             out = a[0] in f
         elif op == "FEq":
-            other = copy.deepcopy(f) if a[0] == "self" else mk_file(fl, a[0])
+            other = eq_other(fl, f, a[0], mk_file)
             out = bool(f == other)
             if bool(f != other) == out:
                 out = "== and != agree"
@@ -318,7 +359,7 @@ def apply_map(fl, holder, pb, pc, op, a):
             elif op == "BContains":
                 out = a[0] in b
             elif op == "BEq":
-                other = copy.deepcopy(b) if a[0] == "self" else mk_block(fl, a[0])
+                other = eq_other(fl, b, a[0], mk_block)
                 out = bool(b == other)
                 if bool(b != other) == out:
                     out = "== and != agree"
@@ -327,7 +368,9 @@ def apply_map(fl, holder, pb, pc, op, a):
         elif op[0] == "C":
             c = f[pb][pc]
             if op == "CSet":
-                c[a[0]] = mk_col(fl, a[1])
+                # a[2]: representation handed to __setitem__ (Containers.tla: ColForms)
+                col = mk_col(fl, a[1])
+                c[a[0]] = col if a[2] == "col" else col.data
             elif op == "CGet":
                 out = col_id(c[a[0]])
             elif op == "CDel":
@@ -339,7 +382,7 @@ def apply_map(fl, holder, pb, pc, op, a):
             elif op == "CContains":
                 out = a[0] in c
             elif op == "CEq":
-                other = copy.deepcopy(c) if a[0] == "self" else mk_cat(fl, a[0])
+                other = eq_other(fl, c, a[0], mk_cat)
                 out = bool(c == other)
                 if bool(c != other) == out:
                     out = "== and != agree"
@@ -439,13 +482,19 @@ def exec_path(item):
             bad.append("abs")
         if not bad and oc == "ok" and op not in NO_OUT and out != exp["out"]:
             bad.append("out")
+        ser = None
+        if not bad:
+            ser = observe_ser(fl, holder["f"])
+            if not ser_agrees(ser, exp["ser"], exp["abs"]):
+                bad.append("ser")
         if bad:
             kb = exp["kb"]
             known_shape = bool(kb) and oc == "Rejected" and ab == src["abs"]
             mism.append({"kind": "step", "fl": fl, "op": op, "a": a, "bad": bad, "kb": kb,
                          "known_shape": known_shape,
-                         "expected": {"oc": exp["oc"], "out": exp["out"], "abs": exp["abs"]},
-                         "observed": {"oc": oc, "out": out, "abs": ab},
+                         "expected": {"oc": exp["oc"], "out": exp["out"], "abs": exp["abs"],
+                                      "ser": "ok" if exp["ser"] else "Rejected"},
+                         "observed": {"oc": oc, "out": out, "abs": ab, "ser": ser},
                          "path": [labels[x] for x, _ in item["steps"][:nsteps]]})
             if not (known_shape and repair_known(fl, holder, "b1", "c1", op, a, kb, exp["oc"])):
                 break
@@ -495,7 +544,33 @@ AWK_TAME = ["sp", "sp", "tab", "sq", "dq", "us", "dollar", "lbr", "dot", "qm", "
 NAME_AWK = ["us", "hash", "sq", "dq", "semi", "dollar", "lbr", "qm", "data_", "loop_"]
 
 
+LEADERS = ["us", "hash", "semi", "dollar", "lbr", "rbr", "dot", "qm", "data_", "loop_", "save_", "global_", "stop_"]
+FEATURES = ["sp", "tab", "sq", "dq"]
+
+
+def _rand_combo(rng):
+    """A value from the feature product of the quoting decision beyond the exhaustive bounds (MCText:
+    FeatVals): a leader class, a random subset of the blank / quote characters in random order and
+    multiplicity, ordinary characters in between."""
+    body = []
+    for t in FEATURES:
+        if rng.random() < 0.5:
+            body += [t] * rng.choice([1, 1, 2])
+    body += [rng.choice(PLAIN) for _ in range(rng.choice([0, 1, 2, 3]))]
+    if rng.random() < 0.1:
+        body.append("nl")
+    rng.shuffle(body)
+    v = [rng.choice(LEADERS) if rng.random() < 0.8 else rng.choice(PLAIN)] + body
+    # Dom_Value (CifText.tla): ';' occurs only as the leader, so never directly behind a line break;
+    # a present value is not "." / "?"
+    if v in (["dot"], ["qm"]):
+        v.append("a")
+    return v
+
+
 def _rand_value(rng, profile):
+    if profile == "combo":
+        return _rand_combo(rng)
     awk = AWK_WILD if profile == "wild" else AWK_TAME
     n = rng.choice([0, 1, 1, 2, 2, 3, 3, 4, 5, 6, 8])
     v = []
@@ -581,26 +656,27 @@ def gen_map_trace(item):
         elif op in ("FGet", "FDel", "FContains"):
             a = [rng.choice(bk)]
         elif op == "FEq":
-            a = [rng.choice(["self", "F0", "F1", "F2", "F3"])]
+            a = [rng.choice(["self", "rev", "revkeys", "F0", "F1", "F2", "F3"])]
         elif op == "BSet":
             a = [rng.choice(ck), rng.choice(["C1", "C2", "C3", "C4"])]
         elif op in ("BGet", "BDel", "BContains"):
             a = [rng.choice(ck)]
         elif op == "BEq":
-            a = [rng.choice(["self", "B0", "B1", "B2", "B3"])]
+            a = [rng.choice(["self", "rev", "revkeys", "B0", "B1", "B2", "B3"])]
         elif op == "CSet":
-            a = [rng.choice(kk), rng.choice(["x", "y", "zz"])]
+            a = [rng.choice(kk), rng.choice(["x", "y", "zz"]), rng.choice(["col", "data"])]
         elif op in ("CGet", "CDel", "CContains"):
             a = [rng.choice(kk)]
         elif op == "CEq":
-            a = [rng.choice(["self", "C1", "C2", "C3", "C4"])]
+            a = [rng.choice(["self", "rev", "revkeys", "C1", "C2", "C3", "C4"])]
         else:
             a = []
         progress({"fl": fl, "op": op, "a": a})
         oc, out = apply_map(fl, holder, pb, pc, op, a)
         ab = project_map(holder["f"])
         events.append({"kind": "map", "fl": fl, "pb": pb, "pc": pc, "op": op, "a": a, "oc": oc,
-                       "out": out if (oc == "ok" and op not in NO_OUT) else [], "abs": ab})
+                       "out": out if (oc == "ok" and op not in NO_OUT) else [], "abs": ab,
+                       "ser": observe_ser(fl, holder["f"])})
         if ab and str(ab[0]["k"]).startswith("<projection failed"):
             break
     return {"events": events}
@@ -645,8 +721,11 @@ def replay(record):
             oc, out = apply_map(fl, holder, "b1", "c1", op, a)
             last = {"op": op, "a": a, "oc": oc, "out": out, "abs": project_map(holder["f"])}
         exp = record["expected"]
+        last["ser"] = observe_ser(fl, holder["f"])
         return {"last": last, "expected": exp,
-                "mismatch": last["oc"] != exp["oc"] or last["abs"] != exp["abs"]}
+                "mismatch": last["oc"] != exp["oc"] or last["abs"] != exp["abs"]
+                or ("out" in record.get("bad", ()) and last["out"] != exp["out"])
+                or ("ser" in exp and not ser_agrees(last["ser"], exp["ser"] == "ok", exp["abs"]))}
     if kind == "event-map":
         fl = record["fl"]
         holder = {"f": _cls(fl)[0]()}
@@ -655,8 +734,13 @@ def replay(record):
             oc, out = apply_map(fl, holder, e["pb"], e["pc"], e["op"], e["a"])
             last = {"op": e["op"], "a": e["a"], "oc": oc, "out": out, "abs": project_map(holder["f"])}
         exp = record["expected"]
+        last["ser"] = observe_ser(fl, holder["f"])
+        if "ser" in exp:      # the call itself agreed, the observation after it did not
+            return {"last": last, "expected": exp,
+                    "mismatch": not ser_agrees(last["ser"], exp["ser"] == "ok", exp["abs"])}
         return {"last": last, "expected": exp,
-                "mismatch": last["oc"] != exp["oc"] or last["abs"] != exp["abs"]}
+                "mismatch": last["oc"] != exp["oc"] or last["abs"] != exp["abs"]
+                or (last["oc"] == "ok" and record["op"] not in NO_OUT and last["out"] != exp["out"])}
     if kind == "key":
         r = exec_keys({"cases": [{"fl": record["fl"], "lvl": record["lvl"], "key": record["key"],
                                   "echo": record["key"], "shown": record["key"], "kb": []}]})
@@ -687,6 +771,8 @@ def run(ctx):
         "and serialize() fills unset encoding parameters in place)",
         "container machine: keys b1,b2 / c1,c2 / k1,k2, nested calls through file['b1']['c1'], columns are "
         "three literals; larger key sets and other paths only through recorded histories",
+        "S2 replays every transition of the state graph once (one history per model state); histories that "
+        "the model merges into one state are told apart only by the write/read observation after every call",
         "trusted: TLC, the TLA+ value parser, the token<->character map, copy.deepcopy for observation, numpy",
     ]
     ctx.cov["rule"] = ("non-trivial = text input that needs quoting or a text field or carries a mask / mapping "
@@ -742,6 +828,13 @@ def run(ctx):
         _vacuity(f"recorded-defect classes never enumerated: {sorted(need - set(kbcount))}")
     if sum(1 for s in done if not s["kb"]) < len(done) // 4:
         _vacuity("too few enumerated files outside the recorded-defect classes")
+    # the feature product (MCText: FeatVals) must really combine three features in one value
+    lead = {"hash", "semi", "dollar", "lbr", "rbr", "data_", "loop_", "save_", "global_", "stop_"}
+    nprod = sum(1 for s in done if any(x["m"] == 0 and x["v"] and x["v"][0] in lead and "sq" in x["v"] and "sp" in x["v"]
+                                       for b in s["inp"] for c in b["cats"] for col in c["cols"] for x in col["cells"]))
+    ctx.cov["text_inputs_leader_and_apostrophe_and_blank"] = nprod
+    if nprod == 0:
+        _vacuity("no enumerated value combines a leading special character, an apostrophe and a blank")
     cases = [{"F": s["inp"], "kb": s["kb"], "impl": s["impl"]} for s in done]
     ctx.rng.shuffle(cases)
     items = [{"cases": c} for c in helpers.chunked(cases, 100)]
@@ -797,13 +890,32 @@ def run(ctx):
         st = g.state(nid)
         f = to_py(st["f"])
         jstates[k] = {"fl": st["fl"], "oc": st["oc"], "out": to_py(st["out"]), "kb": to_py(st["kb"]),
-                      "abs": _abs_file(f), "lazy": model_lazy_shape(f)}
+                      "abs": _abs_file(f), "lazy": model_lazy_shape(f), "ser": _tla_bool(st["ser"])}
         seen_oc[st["oc"]] = seen_oc.get(st["oc"], 0) + 1
         for x in jstates[k]["kb"]:
             seen_kb[(st["fl"], x)] = seen_kb.get((st["fl"], x), 0) + 1
         if any(b["lz"] or any(c["lz"] for c in b["v"]) for b in f):
             lazy_states += 1
     ctx.cov["map_states_per_outcome"] = seen_oc
+    # equality against operands derived from the container itself: both answers must occur for the
+    # re-ordered operands at every level, and the write/read observation must have both outcomes
+    eqseen = {}
+    for (_s, lab, dd) in g.edges:
+        o, a = labels[lab_ix[lab]]
+        if o in ("FEq", "BEq", "CEq") and a[0] in EQ_SELF:
+            key = f"{o}:{a[0]}:{jstates[ids[dd]]['out']}"
+            eqseen[key] = eqseen.get(key, 0) + 1
+    ctx.cov["map_eq_derived_operand_transitions"] = dict(sorted(eqseen.items()))
+    for o in ("FEq", "BEq", "CEq"):
+        for want in (f"{o}:rev:True", f"{o}:revkeys:True", f"{o}:revkeys:False"):
+            if want not in eqseen:
+                _vacuity(f"equality with a derived operand never evaluated to this answer: {want}")
+    serseen = {}
+    for st in jstates:
+        serseen[str(st["ser"])] = serseen.get(str(st["ser"]), 0) + 1
+    ctx.cov["map_states_per_write_observation"] = serseen
+    if set(serseen) != {"True", "False"}:
+        _vacuity(f"write/read observation has one outcome only: {serseen}")
     ctx.cov["map_states_with_serialised_elements"] = lazy_states
     ctx.cov["map_states_per_kb"] = {f"{a}:{b}": n for (a, b), n in sorted(seen_kb.items())}
     if not {"ok", "KeyError", "Rejected"} <= set(seen_oc):
@@ -858,9 +970,9 @@ def run(ctx):
         ctx.sample({"s2_map_path": [labels[lab_ix[lab]] for lab, _ in stp]})
 
     # ================================================================= S3
-    ntext = 16 if quick else 250
+    ntext = 18 if quick else 252
     per = 20 if quick else 30
-    titems = [{"seed": ctx.rng.randrange(1 << 30), "n": per, "profile": "wild" if k % 2 else "tame"}
+    titems = [{"seed": ctx.rng.randrange(1 << 30), "n": per, "profile": ("tame", "wild", "combo")[k % 3]}
               for k in range(ntext)]
     nmap = 60 if quick else 600
     mitems = [{"seed": ctx.rng.randrange(1 << 30), "length": 30 if quick else 40,
@@ -881,7 +993,17 @@ def run(ctx):
     picked = [traces[i] for i in clean if traces[i][0]["kind"] == "text"][:2] + \
              [traces[i] for i in clean if traces[i][0]["kind"] == "map"][:2]
 
+    ncorr = [0]
+
     def corrupt(tr):
+        ncorr[0] += 1
+        if tr[0]["kind"] == "map" and ncorr[0] % 2 == 0:
+            # the write/read observation: claim the opposite outcome
+            for e in tr:
+                if e["oc"] == "ok":
+                    e["ser"] = {"oc": "Rejected", "abs": []} if e["ser"]["oc"] == "ok" else \
+                        {"oc": "ok", "abs": e["abs"]}
+                    return True
         for e in tr:
             if e["kind"] == "text" and e["obs"]["oc"] == "ok":
                 c = e["obs"]["f"][0]["cats"][0]["cols"][0]["cells"][0]
@@ -899,6 +1021,14 @@ def run(ctx):
         helpers.binding_selftest(ctx, picked, corrupt, max_traces=4)
     else:
         ctx.note("binding self-test skipped: no trace without disagreement")
+
+
+def _tla_bool(v):
+    if v is True or v == "TRUE":
+        return True
+    if v is False or v == "FALSE":
+        return False
+    raise RuntimeError(f"not a boolean: {v!r}")
 
 
 def _abs_file(f):
@@ -971,6 +1101,14 @@ def validate_traces(ctx, traces):
             ctx.mismatch({"stage": "S3", "kind": "event-text", "tlc_known": verdict == "known", "kb": kb,
                           "F": e["F"], "expected": {"oc": "ok", "f": e["F"]}, "observed": e["obs"],
                           "model_prediction_oc": v[5], "trace": tid, "event": l})
+        elif v[5] == "ser":
+            # the call agreed with the specification, the write/read observation after it did not
+            ctx.mismatch({"stage": "S3", "kind": "event-map", "tlc_known": False, "kb": [], "bad": ["ser"],
+                          "fl": e["fl"], "op": e["op"], "a": e["a"], "pb": e["pb"], "pc": e["pc"],
+                          "expected": {"oc": e["oc"], "abs": v[6], "ser": "ok" if v[7] else "Rejected"},
+                          "observed": {"oc": e["oc"], "abs": e["abs"], "ser": e["ser"]},
+                          "history": [{k: x[k] for k in ("pb", "pc", "op", "a")} for x in traces[tid - 1][:l]],
+                          "trace": tid, "event": l})
         else:
             ctx.mismatch({"stage": "S3", "kind": "event-map", "tlc_known": verdict == "known", "kb": kb,
                           "fl": e["fl"], "op": e["op"], "a": e["a"], "pb": e["pb"], "pc": e["pc"],
@@ -983,6 +1121,6 @@ def validate_traces(ctx, traces):
 
 MANIFEST = {
     "technique": "TLA+ specifications of the CIF text writer/reader (operator per function of cif.py, CIF 1.1 reference grammar) and of the lazy three-level containers (specs/C06), model-checked by TLC; every enumerated file round-tripped through the real CIFFile, every transition of the container state graph replayed on real text and binary containers, recorded random files and mapping histories re-computed by TLC",
-    "level_text": "TLC enumerates every file built from one awkward value (all strings of <=2 tokens over 18 character classes incl. the reserved words, <=3 over a reduced alphabet) at 12 table positions (one-row, looped, first/other column, after a text field, next to mask cells, sandwiched between other categories and blocks) plus awkward block/category/column names, and checks that the code-shaped reader/writer model loses a table exactly in the recorded-defect classes, that a CIF 1.1 codec exists for every input, and that biotite's output is CIF 1.1 exactly outside the listed classes; each file is then written and read by the real CIFFile and compared cell by cell (values, order, masks). The container machine (2 flavours x 24 calls, keys b1,b2/c1,c2/k1,k2, parsed and serialised elements, cached row counts) is explored exhaustively to a bounded depth, Impl is checked to refine a plain dictionary, and every transition is replayed on real CIFFile and BinaryCIFFile objects (content, outcome, returned value; observation through a deep copy). Random files up to 4x4 with values up to 8 characters and mapping histories of 30-40 calls over 3 keys per level are recorded and re-computed by TLC event by event.",
+    "level_text": "TLC enumerates every file built from one awkward value (all strings of <=2 tokens over 18 character classes incl. the reserved words, <=3 over a reduced alphabet, and the feature product of the quoting decision: every leading character class x every subset of {blank, tab, apostrophe, double quote} in both orders) at 12 table positions (one-row, looped, first/other column, after a text field, next to mask cells, sandwiched between other categories and blocks) plus awkward block/category/column names, and checks that the code-shaped reader/writer model loses a table exactly in the recorded-defect classes, that a CIF 1.1 codec exists for every input, and that biotite's output is CIF 1.1 exactly outside the listed classes; each file is then written and read by the real CIFFile and compared cell by cell (values, order, masks). The container machine (2 flavours x 24 calls, keys b1,b2/c1,c2/k1,k2, parsed and serialised elements, cached row counts) is explored exhaustively to a bounded depth, Impl is checked to refine a plain dictionary, and every transition is replayed on real CIFFile and BinaryCIFFile objects (content, outcome, returned value; observation through a deep copy; after every call an independent copy is written and read back and compared with the specification's serialisability and content, so that caches left behind by the history show). Equality is called with literals and with operands derived from the container itself (copy, same mapping in reverse insertion order, keys reversed over the values in place); columns are assigned as column objects and as data objects. Random files up to 4x4 with values up to 8 characters and mapping histories of 30-40 calls over 3 keys per level are recorded and re-computed by TLC event by event.",
     "level_note": "Bounded: exhaustive only for one awkward value of <=3 tokens per file and container histories of <=4 (thorough 5) calls; longer values, several awkward values per table and longer histories only through recorded runs. Characters are abstracted to the modelled classes; Unicode blanks / line separators other than space, tab and line feed are not modelled. Values containing a line break directly followed by ';' and present values equal to '.' or '?' are outside the domain (not expressible). Conformance of biotite's text to CIF 1.1 and of other writers' legal CIF to biotite's reader is reported as a diagnostic only. Five recorded defects are accepted only in their exact predicted shape. Trusted: TLC, the TLA+ value parser, the token<->character map, copy.deepcopy, numpy, msgpack.",
 }
